@@ -6,7 +6,7 @@ From Coq Require Import ZArith List String Bool Reals.
 From Flocq Require Import Core.
 From Hexital Require Import Base.Prelude Base.Num Model.Candle Model.Manager Model.Readings Model.Engine Proofs.StructMore.
 From Hexital Require Import Base.Prelude Base.Num Model.Candle Inst.RealInst Spec.Steppers
-  Proofs.SpecGeneric Proofs.SpecReal Proofs.SpecMore.
+  Proofs.SpecGeneric Proofs.SpecReal Proofs.SpecMore Proofs.SpecRange.
 Import ListNotations.
 Local Open Scope R_scope.
 
@@ -104,3 +104,34 @@ Theorem C04_hma_raw_series :
               reading ROps st1 (String.append (i_name ROps I) "_HMAs") i = Ok v /\ st' = st1.
 Proof. exact hma_raw. Qed.
 Print Assumptions C04_hma_raw_series.
+
+(* "every reading lies between the smallest and largest input it averages": the first SMA and EMA
+   reading (the rounded mean of the first full window) and every WMA reading (weights period..1,
+   all positive, summing to period(period+1)/2) lie inside any interval with end points on the
+   rounding grid that contains the window; EMA's later readings by C04_ema_within_input_range *)
+Theorem C04_sma_seed_within_input_range :
+  forall (p nd : Z) (s : state ROps) (x lo hi : R),
+  (0 < p)%Z -> s_prev ROps s = None -> full ROps p (push ROps p x (s_buf ROps s)) = true ->
+  generic_format radix10 (FIX_exp (- nd)) lo -> generic_format radix10 (FIX_exp (- nd)) hi ->
+  within lo hi (push ROps p x (s_buf ROps s)) ->
+  exists r s', sma_step ROps p nd s x = Ok (VNum r, s') /\ lo <= r <= hi.
+Proof. exact sma_seed_within_range. Qed.
+Print Assumptions C04_sma_seed_within_input_range.
+
+Theorem C04_ema_seed_within_input_range :
+  forall (p : Z) (sm : R) (nd : Z) (s : state ROps) (x lo hi : R),
+  (0 < p)%Z -> s_prev ROps s = None -> full ROps p (push ROps p x (s_buf ROps s)) = true ->
+  generic_format radix10 (FIX_exp (- nd)) lo -> generic_format radix10 (FIX_exp (- nd)) hi ->
+  within lo hi (push ROps p x (s_buf ROps s)) ->
+  exists r s', ema_step ROps p sm nd s x = Ok (VNum r, s') /\ lo <= r <= hi.
+Proof. exact ema_seed_within_range. Qed.
+Print Assumptions C04_ema_seed_within_input_range.
+
+Theorem C04_wma_within_input_range :
+  forall (p nd : Z) (s : state ROps) (x lo hi : R),
+  (0 < p)%Z -> full ROps p (push ROps p x (s_buf ROps s)) = true ->
+  generic_format radix10 (FIX_exp (- nd)) lo -> generic_format radix10 (FIX_exp (- nd)) hi ->
+  within lo hi (push ROps p x (s_buf ROps s)) ->
+  exists r s', wma_step ROps p nd s x = Ok (VNum r, s') /\ lo <= r <= hi.
+Proof. exact wma_within_range. Qed.
+Print Assumptions C04_wma_within_input_range.
